@@ -22,6 +22,7 @@ PID = "C19"
 def warm():
     wd = workdir("c19-warm")
     cf.gen(wd, "A3", 3, 2, 2, True)
+    cf.gen(wd, "A4o", 4, 2, 2, False)
 
 
 def records(wd, tier):
@@ -48,6 +49,18 @@ def records(wd, tier):
         if tier == "quick":
             cps = cps[::3]   # a sub-family of the thorough one, so that the known-findings table stays valid
         items.append({"g": gr, "gid": f"A3-{gi}", "vars": vars_, "evs": evs, "comps": cps})
+    # ancestral components on 4-node graphs: W* = all four nodes (four ancestral sets to merge, no vertex outside them),
+    # X* empty or one node, under six node / edge insertion orders (the merge follows the edge iteration order)
+    g4 = cf.gen(wd, "A4o", 4, 2, 2, False)[0]
+    pool = [gr for gr in g4["graphs"] if len(gr["b"]) >= 3]
+    pool = pool[::8] if tier == "quick" else pool[::2]
+
+    def pv(n):
+        return {"n": n, "iv": []}
+    for gi, gr in enumerate(pool):
+        allw = [pv(1), pv(2), pv(3), pv(4)]
+        cps = [[allw, []]] * 6 + [[allw, [pv(1 + (gi + j) % 4)]] for j in range(6)]
+        items.append({"g": gr, "gid": f"A4c-{gi}", "vars": [], "evs": [], "comps": cps, "comp_orders": 6})
     shards = [items[i::NCPU] for i in range(NCPU)]
     jobs = []
     for i, sh in enumerate(shards):
